@@ -164,7 +164,15 @@ def gen_builder_session(rng, n):
         m = rng.random()
         mask = (1 << rng.randrange(0, 3)) if m < 0.45 else (rng.randrange(0, 8) if m < 0.6 else 0)
         if r < 0.30:
-            ops.append("b %x emit %d %d" % (mask, rng.randrange(0, 4), rng.randrange(0, 2)))
+            # one-shot state first (extra register = {k} mask or a GP count register, options, inline comment), then the instruction
+            q = rng.random()
+            if q < 0.35:
+                ops.append("b 0 setextra %d" % rng.choice((1, 2, 3, 7, 17)))
+            if 0.25 < q < 0.5:
+                ops.append("b 0 setopts %d" % rng.choice((1, 2, 3)))
+            if q > 0.7:
+                ops.append("b 0 setcmt")
+            ops.append("b %x emit %d" % (mask, rng.choice((0, 1, 2, 3, 4, 5, 7))))
         elif r < 0.45:
             ops.append("b %x newlabel" % mask)
             labels += 1
@@ -207,8 +215,15 @@ def gen_compiler_session(rng, n):
             ops.append("c 0 endfunc")
             isopen = False
         elif r < 0.80:
-            ops.append("c %x emit %d" % (mask & 1, rng.choice((0, 1, 3))))
+            q = rng.random()
+            if q < 0.4:
+                ops.append("c 0 setextra %d" % rng.choice((1, 2, 7, 17)))
+            if 0.3 < q < 0.5:
+                ops.append("c 0 setopts %d" % rng.choice((1, 2, 3)))
+            ops.append("c %x emit %d" % (mask & 1, rng.choice((0, 1, 3, 4, 5))))
         else:
+            if rng.random() < 0.3:
+                ops.append("c 0 setextra %d" % rng.choice((1, 3)))
             ops.append("c %x invoke %d" % (mask & 3, rng.choice((0, 1, 3))))
         if isopen is None:
             # a faulted func may or may not have opened a function: an `endfunc` answers InvalidState in the latter case
@@ -258,6 +273,53 @@ def materialise_jit(h, ops):
             continue
         out.append(o)
     return out
+
+
+ONESHOT_CARRIERS = [(["setextra 1"], 4), (["setextra 2"], 5), (["setextra 7", "setcmt"], 4), (["setopts 2"], 7),
+                    (["setextra 3", "setcmt"], 5), (["setopts 2", "setcmt"], 7), (["setcmt"], 4)]
+ONESHOT_FOLLOWERS = [5, 4, 7, 1, 3]
+
+
+def oneshot_stage(res, h, rng, dist):
+    """an instruction that carries one-shot state (write mask k(kN), a count register, lock/rep, an inline comment) and whose
+    `_emit` fails for every request index; then a DIFFERENT plain instruction is emitted and the Builder is serialized: the bytes
+    must be those of the failure-free run of the remaining calls (when the failed call answered out of memory) or of the full
+    failure-free run (when the failure was tolerated: the comment copy)"""
+    sessions = []
+    for sets, x in ONESHOT_CARRIERS:
+        for y in ONESHOT_FOLLOWERS:
+            if y == x:
+                continue
+            prefix = ["b 0 emit %d" % rng.choice((0, 1, 3)) for _ in range(rng.randrange(0, 3))]
+            nreq = 2 if "setcmt" in sets else 1
+            for j in range(nreq):
+                fail = ["b reset"] + prefix + ["b 0 " + t for t in sets] + ["b %x emit %d" % (1 << j, x), "b 0 emit %d" % y, "b 0 ser"]
+                rest = ["b reset"] + prefix + ["b 0 emit %d" % y, "b 0 ser"]
+                full = ["b reset"] + prefix + ["b 0 " + t for t in sets] + ["b 0 emit %d" % x, "b 0 emit %d" % y, "b 0 ser"]
+                sessions.append((fail, rest, full))
+    lines = [l for f, r, u in sessions for l in f + r + u]
+    out, rc, err = vlib.run_lines([str(h)], lines)
+    if rc != 0 or len(out) != len(lines):
+        k, tail = vlib.locate_abort([str(h)], lines)
+        res.violation("the real code crashed in the one-shot-state sessions: %s" % tail[-500:], {"ops": lines[max(0, k - 8):k + 1]},
+                      found_input=True, key="crash:oneshot")
+        return 0
+    pos = 0
+    n = 0
+    for f, r, u in sessions:
+        of, orr, ou = out[pos:pos + len(f)], out[pos + len(f):pos + len(f) + len(r)], out[pos + len(f) + len(r):pos + len(f) + len(r) + len(u)]
+        pos += len(f) + len(r) + len(u)
+        n += 1
+        failed = of[-3].startswith("OutOfMemory")
+        expect = orr[-1] if failed else ou[-1]
+        if of[-1] != expect or not of[-1].startswith("ser ok"):
+            res.violation("one-shot state of a failed _emit leaks into the next instruction: after `%s` answered %s the serialized code is %s, "
+                          "the failure-free run of the %s gives %s" % (f[-3], of[-3].split(" |")[0], of[-1][:120],
+                                                                       "remaining calls" if failed else "same calls", expect[:120]),
+                          {"ops": f}, found_input=True, key="ops:oneshot")
+            break
+    dist["oneshot_sessions"] = n
+    return n
 
 
 def split_sessions(ops):
@@ -535,6 +597,7 @@ def run(res):
             res.violation("after a failed call was repeated the program does not end in the failure-free state", {"ops": pops[st:e]},
                           found_input=True, key="ops:program")
         ops += pops
+    oneshot_stage(res, h, rng, dist)
     if not ops or sum(dist["ops"].values()) == 0:
         res.violation("empty run: no operation line was executed", {"ops": ops[:5]}, found_input=False, key="empty")
     # ---- PART 1
